@@ -18,8 +18,8 @@ PREEMPTION = "0.05"
 # (cases, seeds per case) per tier; the case number selects limit / mode / thread count / senders
 # C20 cases 36.. are the crowd cases (hundreds of refusals per interleaving: fewer seeds)
 PLAN = {
-    "quick": {"C18": [(list(range(8)), 24)], "C19": [([1, 3, 5, 7, 9, 11, 13, 19], 24)], "C20": [([0, 1, 2, 4, 8, 10, 14, 22, 27], 24), ([36, 37], 8)]},
-    "thorough": {"C18": [(list(range(8)), 512)], "C19": [(list(range(24)), 256)], "C20": [(list(range(36)), 256), ([36, 37], 96)]},
+    "quick": {"C18": [(list(range(8)), 24)], "C19": [([1, 3, 5, 7, 9, 11, 13, 19], 24)], "C20": [([0, 1, 2, 4, 8, 10, 14, 22, 27, 38, 39], 24), ([36, 37], 8)]},
+    "thorough": {"C18": [(list(range(8)), 512)], "C19": [(list(range(24)), 256)], "C20": [(list(range(36)) + [38, 39], 256), ([36, 37], 96)]},
 }
 
 
